@@ -2,6 +2,7 @@
 binaries from /repo's working tree, the probe target, the objdump site model
 and the fake `go` tool."""
 import hashlib
+import json
 import os
 import shutil
 import stat
@@ -36,6 +37,76 @@ def build_cmds(ctx):
     shutil.copy(os.path.join(bindir, "probetarget"), os.path.join(d, "probetarget"))
     os.chmod(os.path.join(d, "probetarget"), 0o755)
     return d
+
+
+SANDBOX_DUMP_SRC = """//go:build verif
+
+package main
+
+import (
+	"fmt"
+	"os"
+	"syscall"
+
+	seccomp "github.com/elastic/go-seccomp-bpf"
+)
+
+// Added to cmd/sandbox through a build overlay (never written into the repository): when VERIF_DUMP_PROG is set, the program
+// and flags that LoadFilter is about to hand to the kernel are written there (hook H2, VerifBeforeInstall).
+func init() {
+	path := os.Getenv("VERIF_DUMP_PROG")
+	if path == "" {
+		return
+	}
+	seccomp.VerifBeforeInstall = func(prog []syscall.SockFilter, flags seccomp.FilterFlag) {
+		f, err := os.Create(path)
+		if err != nil {
+			return
+		}
+		for _, i := range prog {
+			fmt.Fprintf(f, "%04x %02x %02x %08x\\n", i.Code, i.Jt, i.Jf, i.K)
+		}
+		f.Close()
+	}
+}
+"""
+
+
+def build_sandbox_dump(ctx, d):
+    """cmd/sandbox of the current tree plus one overlay file that dumps what is about to be installed. None if it does not build."""
+    src = os.path.join(d, "zz_verif_dump.go")
+    with open(src, "w") as f:
+        f.write(SANDBOX_DUMP_SRC)
+    ov = os.path.join(d, "overlay_sandbox.json")
+    with open(ov, "w") as f:
+        json.dump({"Replace": {os.path.join(os.path.realpath(vlib.REPO), "cmd", "sandbox", "zz_verif_dump.go"): src}}, f)
+    out = os.path.join(d, "sandbox_dump")
+    rc, o, e = ctx.run(["go", "build", "-tags", "verif", "-overlay", ov, "-o", out, "./cmd/sandbox"], cwd=vlib.REPO, timeout=900)
+    if rc != 0:
+        ctx.note("the sandbox command with the dump overlay does not build: " + e[-300:])
+        return None
+    os.chmod(out, 0o755)
+    return out
+
+
+def sandbox_installs(sb, policy_file, scratch, tag):
+    """Runs the overlay build of the sandbox on a policy file with /bin/true as the target; returns (program text or None, rc, stderr)."""
+    dump = os.path.join(scratch, "dump_%s.txt" % tag)
+    if os.path.exists(dump):
+        os.remove(dump)
+    import resource
+    rc, err = None, "timeout"
+    try:
+        # a policy whose default action kills threads or the process takes the sandbox's own Go runtime down after the install
+        # (it may hang): what matters here was written before the install
+        p = subprocess.run([sb, "-policy", policy_file, "/bin/true"], capture_output=True, text=True, timeout=4, cwd="/",
+                           env={"PATH": "/usr/bin:/bin", "VERIF_DUMP_PROG": dump, "HOME": "/"},
+                           preexec_fn=lambda: resource.setrlimit(resource.RLIMIT_CORE, (0, 0)))
+        rc, err = p.returncode, p.stderr[-300:]
+    except subprocess.TimeoutExpired:
+        pass
+    prog = open(dump).read() if os.path.exists(dump) else None
+    return prog, rc, err
 
 
 # ---- objdump site model (text in `go tool objdump` layout)
